@@ -123,6 +123,11 @@ DRV_OP(vgate) {
     if (a[0] == "vgate2") {
         try { other = nix::File::open(p, nix::FileMode::ReadWrite, "hdf5", nix::Compression::Auto, nix::OpenFlags::Force); } catch (...) {}
     }
+    // vgate3: a plain ReadOnly session (where the gate lets one in) is open meanwhile: HDF5 will not open the file read-write then —
+    // the request must fail, not come back as something else
+    if (a[0] == "vgate3") {
+        try { other = nix::File::open(p, nix::FileMode::ReadOnly); } catch (...) {}
+    }
     std::string r = guarded([&]() {
         nix::File f = nix::File::open(p, mode, "hdf5", nix::Compression::Auto, flags);
         std::vector<int> v = f.version();
@@ -141,3 +146,5 @@ DRV_OP(vgate) {
 // vgate2 … : the same with a forced read-write session on the file open while the open that is judged takes place
 static std::string op_vgate2(const drv::Args &a) { return op_vgate(a); }
 static drv::Register reg_vgate2("vgate2", op_vgate2);
+static std::string op_vgate3(const drv::Args &a) { return op_vgate(a); }
+static drv::Register reg_vgate3("vgate3", op_vgate3);
